@@ -293,10 +293,14 @@ pub fn npn_canonization_res(
     panic!();
 }
 
-// TODO: handle 0 and 1 input cases, where the flip or swap list may be empty
-
 pub fn p_canonization(num_vars: usize, table: &mut [u64], best: &mut [u64], res_perm: &mut [u8]) {
-    if num_vars <= 6 {
+    if num_vars <= 1 {
+        // A single permutation exists: the swap list is empty and the function is canonical
+        best.clone_from_slice(table);
+        for (i, p) in res_perm.iter_mut().enumerate() {
+            *p = i as u8;
+        }
+    } else if num_vars <= 6 {
         let best_ind =
             p_canonization_ind(num_vars, &mut table[0..1], &mut best[0..1], SWAPS[num_vars]);
         p_canonization_res(num_vars, res_perm, SWAPS[num_vars], best_ind);
@@ -308,7 +312,16 @@ pub fn p_canonization(num_vars: usize, table: &mut [u64], best: &mut [u64], res_
 }
 
 pub fn n_canonization(num_vars: usize, table: &mut [u64], best: &mut [u64]) -> u32 {
-    if num_vars <= 6 {
+    if num_vars == 0 {
+        // No input to flip (the flip list is empty): only the output may be complemented
+        best.clone_from_slice(table);
+        if table[0] & 1 != 0 {
+            not_inplace(num_vars, best);
+            1
+        } else {
+            0
+        }
+    } else if num_vars <= 6 {
         let best_ind =
             n_canonization_ind(num_vars, &mut table[0..1], &mut best[0..1], FLIPS[num_vars]);
         n_canonization_res(num_vars, FLIPS[num_vars], best_ind)
@@ -325,7 +338,13 @@ pub fn npn_canonization(
     best: &mut [u64],
     res_perm: &mut [u8],
 ) -> u32 {
-    if num_vars <= 6 {
+    if num_vars <= 1 {
+        // A single permutation exists (the swap list is empty): same as N canonization
+        for (i, p) in res_perm.iter_mut().enumerate() {
+            *p = i as u8;
+        }
+        n_canonization(num_vars, table, best)
+    } else if num_vars <= 6 {
         let best_ind = npn_canonization_ind(
             num_vars,
             &mut table[0..1],
